@@ -110,6 +110,7 @@ def framing_correspondence(ctx: Ctx) -> None:
     if len(model) != len(cases):
         raise ToolFailure("driver returned %d lines for %d cases" % (len(model), len(cases)))
     ndiff = 0
+    diffs = []
     for (k, chunks, kind), mline in zip(cases, model):
         real = real_reads(k, chunks)
         ctx.case(("R", k, [c.hex() for c in chunks]), nontrivial=len(chunks) > 1)
@@ -117,12 +118,34 @@ def framing_correspondence(ctx: Ctx) -> None:
         ctx.dist("framing_chunks", str(min(len(chunks), 9)))
         if real != canon_model_reads(mline):
             ndiff += 1
-            if ndiff <= 3:
-                framing_search(ctx, k, chunks, real, mline)
+            diffs.append((k, chunks, real, mline))
+    # search: among all differing cases, is there one where a delivered frame is corrupted / lost?
+    corrupt = [d for d in diffs if frames_wrong(*d[:3])]
+    for d in corrupt[:2]:
+        framing_search(ctx, *d)
+    if diffs and not corrupt:
+        framing_search(ctx, *diffs[0])
     ctx.count("traces_validated_against_impl", len(cases))
     ctx.sample({"framing_case": lines[len(lines) // 2], "model_and_impl": model[len(lines) // 2]})
     ctx.coverage["framing_disagreements"] = ndiff
     ctx.count("disagreements_checked", ndiff)
+
+
+def frames_wrong(k, chunks, real) -> bool:
+    stream = b"".join(chunks)
+    expect, pos = [], 0
+    while pos + 4 <= len(stream):
+        n = struct.unpack("!L", stream[pos:pos + 4])[0]
+        if pos + 4 + n > len(stream):
+            break
+        expect.append(stream[pos + 4: pos + 4 + n]); pos += 4 + n
+    got = []
+    for part in real.split(" | "):
+        m = part.split(" buf=")[0][4:]
+        if m != "none":
+            got.append(bytes(int(x) for x in m.strip("[]").split()))
+    expect_ne = [e for e in expect if e]
+    return got != expect_ne[: len(got)] or len(got) < min(len(expect_ne), k)
 
 
 def framing_search(ctx: Ctx, k, chunks, real, mline) -> None:
@@ -176,6 +199,7 @@ BEHAVIOURS = {
     "status-without-tty-keys": ("good", lambda f: ([frame(b'{"command": "status"}')], False)),
     "check-missing-arguments": ("badArgs", lambda f: ([frame(b'{"command": "check", "is_tty": false}')], False)),
     "extra-argument": ("badArgs", lambda f: ([frame(json.dumps(dict(GOOD_STATUS, zzz=1)).encode())], False)),
+    "stop-with-unexpected-argument": ("badArgs", lambda f: ([frame(json.dumps({"command": "stop", "is_tty": False, "terminal_width": 80, "bogus": 1}).encode())], False)),
     "hangup-before-reply": ("good", lambda f: ([frame(json.dumps(good_check(f)).encode())], True)),
     "fragmented-good": ("good", lambda f: ([bytes([b]) for b in frame(json.dumps(GOOD_STATUS).encode())[:9]]
                                             + [frame(json.dumps(GOOD_STATUS).encode())[9:]], False)),
@@ -404,13 +428,17 @@ def serve_correspondence(ctx: Ctx) -> None:
         mine = faults[i * per:(i + 1) * per] or [rng.choice(FAULTS)]
         sc = ["good-check"]
         for fkind in mine:
+            # block: fault [, another fault] , then — directly, with no delivered reply in between — an
+            # edit and a check whose answer must not depend on the fault
             sc.append(fkind)
-            if rng.random() < 0.5:
+            if rng.random() < 0.3:
                 sc.append(rng.choice(FAULTS))
-            if rng.random() < 0.4:
-                sc.append("good-status")
-        sc.insert(rng.randint(1, len(sc)), "edit")
-        sc.append("good-check")
+            # every fault kind is followed at least once by edit + check; extra random blocks vary
+            sc += ["edit", "good-check"]
+            if rng.random() < 0.3:
+                sc += [rng.choice(FAULTS), rng.choice(["good-status", "edit", "good-check"])]
+        if sc[-1] != "good-check":
+            sc += ["edit", "good-check"]
         scripts.append(sc)
     model = model_serve(ctx, scripts)
     with ThreadPoolExecutor(max_workers=6) as ex:
